@@ -130,11 +130,17 @@ func c12DecInner(r *h.R, c h.C12DecCase, in []byte) h.Result {
 			if got := pk.Verify(fixST, sig); got != exp {
 				return r.Fail("sr25519.PublicKey.Verify:differs-from-reference", "decoded sig=%x: got %v want %v", in, got, exp).Result()
 			}
+		} else if got := c12MustMarshal(sig); bytes.Equal(got, fix.Sig) {
+			// Nothing documents the receiver after a refusal.  Untouched (still the
+			// fixture signature it held) ...
+			r.Class("sig:receiver-untouched-on-error")
 		} else {
+			// ... or reset, which is what the code does; never a mixture of the
+			// old value and the refused input.
 			if !c12Zero(sr) || ss != nil {
 				return r.Fail("sr25519.Signature.UnmarshalBinary:not-reset-on-error", "in=%x left R=%x s=%x", in, sr, ss).Result()
 			}
-			if got := c12MustMarshal(sig); len(got) != 64 || !c12Zero(got[:63]) || got[63] != 0x80 {
+			if len(got) != 64 || !c12Zero(got[:63]) || got[63] != 0x80 {
 				return r.Fail("sr25519.Signature.UnmarshalBinary:not-reset-on-error", "in=%x marshals to %x", in, got).Result()
 			}
 			if pk.Verify(fixST, sig) {
@@ -180,11 +186,13 @@ func c12DecInner(r *h.R, c h.C12DecCase, in []byte) h.Result {
 			if got, exp := pk.Verify(fixST, sig), bytes.Equal(in, fix.Pub); got != exp {
 				return r.Fail("sr25519.PublicKey.Verify:differs-from-reference", "decoded key %x on the fixture signature: got %v", in, got).Result()
 			}
+		} else if got := c12MustMarshal(pk); bytes.Equal(got, fix.Pub) && hasPoint && sr25519.C12PKConsistent(pk) {
+			r.Class("pk:receiver-untouched-on-error") // see "sig"
 		} else {
 			if !c12Zero(comp) || hasPoint {
 				return r.Fail("sr25519.PublicKey.UnmarshalBinary:not-reset-on-error", "in=%x left compressed=%x point=%v", in, comp, hasPoint).Result()
 			}
-			if got := c12MustMarshal(pk); len(got) != 32 || !c12Zero(got) {
+			if len(got) != 32 || !c12Zero(got) {
 				return r.Fail("sr25519.PublicKey.UnmarshalBinary:not-reset-on-error", "in=%x marshals to %x", in, got).Result()
 			}
 			if pk.Verify(fixST, sig) {
@@ -230,8 +238,29 @@ func c12DecInner(r *h.R, c h.C12DecCase, in []byte) h.Result {
 			if got, exp := c12MustMarshal(sk.KeyPair()), append(append([]byte(nil), in...), rsk.SrPublicKeyFast()...); !bytes.Equal(got, exp) {
 				return r.Fail("sr25519.SecretKey.KeyPair:not-schnorrkel", "sk=%x got=%x want=%x", in, got, exp).Result()
 			}
+			// Equal "checks both the scalar and the nonce": a key with the same
+			// scalar and another nonce, and one with the same nonce and another
+			// scalar, are both different keys
+			r.Eval(2)
+			otherNonce := append([]byte(nil), in...)
+			otherNonce[32+int(in[0])%32] ^= 1 << (in[1] % 8)
+			otherScalar := append(ref.ToLE(ref.SAdd(ref.FromLE(in[:32]), big.NewInt(1)), 32), in[32:]...)
+			for _, v := range []struct {
+				what string
+				b    []byte
+			}{{"same scalar, other nonce", otherNonce}, {"other scalar, same nonce", otherScalar}} {
+				o, err := sr25519.NewSecretKeyFromBytes(v.b)
+				if err != nil {
+					return r.Fail("sr25519.NewSecretKeyFromBytes:wrong-decision", "in=%x err=%v", v.b, err).Result()
+				}
+				if sk.Equal(o) || o.Equal(sk) {
+					return r.Fail("sr25519.SecretKey.Equal:different-keys-equal", "%s: %x vs %x", v.what, in, v.b).Result()
+				}
+			}
 		} else {
-			if got := c12MustMarshal(sk); !bytes.Equal(got, pre) || !bytes.Equal(key, pre[:32]) || !bytes.Equal(nonce, pre[32:]) {
+			// nothing documents the receiver after a refusal: untouched or zero, never partly written
+			got := c12MustMarshal(sk)
+			if untouched := bytes.Equal(got, pre) && bytes.Equal(key, pre[:32]) && bytes.Equal(nonce, pre[32:]); !untouched && !bytes.Equal(got, make([]byte, 64)) {
 				return r.Fail("sr25519.SecretKey.UnmarshalBinary:modified-on-error", "in=%x: receiver now %x (was %x)", in, got, pre).Result()
 			}
 		}
@@ -286,11 +315,13 @@ func c12DecInner(r *h.R, c h.C12DecCase, in []byte) h.Result {
 			if got, exp := c12MustMarshal(sig), ref.SrSignFast(rsk, in[64:], fix.M.Transcript(), ent.Bytes).Bytes; !bytes.Equal(got, exp) {
 				return r.Fail("sr25519.KeyPair.Sign:not-schnorrkel", "decoded key pair %x: got %x want %x", in, got, exp).Result()
 			}
+		} else if got := c12MustMarshal(kp); bytes.Equal(got, c12Fix.kp) && hasSK && hasPK {
+			r.Class("kp:receiver-untouched-on-error") // see "sig"
 		} else {
 			if hasSK || hasPK || kp.SecretKey() != nil || kp.PublicKey() != nil {
 				return r.Fail("sr25519.KeyPair.UnmarshalBinary:not-reset-on-error", "in=%x left sk=%v pk=%v", in, hasSK, hasPK).Result()
 			}
-			if got := c12MustMarshal(kp); len(got) != 96 || !c12Zero(got) {
+			if len(got) != 96 || !c12Zero(got) {
 				return r.Fail("sr25519.KeyPair.UnmarshalBinary:not-reset-on-error", "in=%x marshals to %x", in, got).Result()
 			}
 		}
@@ -314,7 +345,13 @@ func c12DecInner(r *h.R, c h.C12DecCase, in []byte) h.Result {
 			if got := c12MustMarshal(&msk); !bytes.Equal(got, in) || !bytes.Equal(c12MustMarshal(n), in) || !n.Equal(&msk) {
 				return r.Fail("sr25519.MiniSecretKey.MarshalBinary:roundtrip", "in=%x out=%x", in, got).Result()
 			}
-		} else if !bytes.Equal(msk[:], pre) {
+			var other sr25519.MiniSecretKey
+			copy(other[:], in)
+			other[int(in[0])%32] ^= 1 << (in[1] % 8)
+			if n.Equal(&other) || other.Equal(n) {
+				return r.Fail("sr25519.MiniSecretKey.Equal:different-keys-equal", "%x vs %x", in, other[:]).Result()
+			}
+		} else if !bytes.Equal(msk[:], pre) && !bytes.Equal(msk[:], make([]byte, 32)) {
 			return r.Fail("sr25519.MiniSecretKey.UnmarshalBinary:modified-on-error", "len=%d: receiver now %x", len(in), msk[:]).Result()
 		}
 
